@@ -36,7 +36,16 @@ type outSpec struct {
 type stepSpec struct {
 	Lines []interface{} `json:"lines"`
 	Outs  []outSpec     `json:"outs"`
+	Long  *bool         `json:"long"` // timing sessions: the step has its own long timeout (true) or waits for the default (false)
 }
+
+// timing sessions: the echo process delays a marked line beyond the default timeout
+const (
+	slowDelay   = 700 * time.Millisecond
+	longTimeout = 2200 * time.Millisecond
+	echoScript  = `while IFS= read -r l; do case "$l" in *'"zz"'*) sleep 0.7;; esac; printf '%s\n' "$l"; done`
+)
+
 type sessSpec struct {
 	Steps []stepSpec `json:"steps"`
 }
@@ -69,12 +78,27 @@ func runOne(id int, raw []byte, timeout time.Duration) O {
 		panic(err)
 	}
 	s := &expect.Session{Interpreters: core.InterpretersMap{"ecmascript": ecmascript.NewInterpreter()}, DefaultTimeout: timeout}
+	timing := false
 	for _, st := range ss.Steps {
 		iop := expect.IO{Timeout: timeout}
+		if st.Long != nil {
+			// own long timeout, or none (the session's default applies)
+			timing = true
+			iop.Timeout = 0
+			if *st.Long {
+				iop.Timeout = longTimeout
+			}
+		}
 		for _, l := range st.Lines {
 			t := l.([]interface{})
 			if t[0] == "noise" {
 				iop.Inputs = append(iop.Inputs, "this is {not json")
+			} else if t[0] == "slow" {
+				// the same message with a marker property no pattern looks at; the echo process holds it back
+				m := enc.D(t[1]).(map[string]interface{})
+				m["zz"] = float64(1)
+				js, _ := json.Marshal(m)
+				iop.Inputs = append(iop.Inputs, string(js))
 			} else {
 				js, _ := json.Marshal(enc.D(l))
 				iop.Inputs = append(iop.Inputs, string(js))
@@ -98,7 +122,13 @@ func runOne(id int, raw []byte, timeout time.Duration) O {
 		}()
 		ctx, cancel := context.WithTimeout(context.Background(), 20*time.Second)
 		defer cancel()
-		if err := s.Run(ctx, "", "cat"); err != nil {
+		var err error
+		if timing {
+			err = s.Run(ctx, "", "sh", "-c", echoScript)
+		} else {
+			err = s.Run(ctx, "", "cat")
+		}
+		if err != nil {
 			verdict, errtext = "fail", err.Error()
 		}
 	}()
